@@ -134,8 +134,19 @@ func foldFunc(fn *ssa.Function, args []bval, depth int) bval {
 
 // foldFuncEnv additionally takes values for captured variables.
 func foldFuncEnv(fn *ssa.Function, args []bval, captured benv, depth int) bval {
-	if depth > 30 || len(fn.Blocks) == 0 {
+	ret, env, _ := foldToReturn(fn, args, captured, depth)
+	if ret == nil || len(ret.Results) != 1 {
 		return bval{}
+	}
+	return foldValue(ret.Results[0], env, depth+1)
+}
+
+// foldToReturn follows the control flow of a pure function on (partially) known arguments and yields the return it
+// reaches, the values known there, and which edge every phi on the way took. nil when a branch is not decided by the
+// known values or the function is not pure.
+func foldToReturn(fn *ssa.Function, args []bval, captured benv, depth int) (*ssa.Return, benv, map[*ssa.Phi]ssa.Value) {
+	if depth > 30 || len(fn.Blocks) == 0 {
+		return nil, nil, nil
 	}
 	env := benv{}
 	for k, v := range captured {
@@ -146,6 +157,7 @@ func foldFuncEnv(fn *ssa.Function, args []bval, captured benv, depth int) bval {
 			env[p] = args[i]
 		}
 	}
+	took := map[*ssa.Phi]ssa.Value{}
 	blk := fn.Blocks[0]
 	var from *ssa.BasicBlock
 	for steps := 0; steps < 200; steps++ {
@@ -155,21 +167,29 @@ func foldFuncEnv(fn *ssa.Function, args []bval, captured benv, depth int) bval {
 				if from != nil {
 					for i, p := range blk.Preds {
 						if p == from {
-							env[x] = foldValue(x.Edges[i], env, depth+1)
+							e := x.Edges[i]
+							if ph, ok := e.(*ssa.Phi); ok {
+								if t, ok := took[ph]; ok {
+									e = t
+								}
+							}
+							took[x] = e
+							if r := foldValue(x.Edges[i], env, depth+1); r.known {
+								env[x] = r
+							} else {
+								delete(env, x)
+							}
 						}
 					}
 				}
 			case *ssa.Store, *ssa.MapUpdate, *ssa.Go, *ssa.Defer, *ssa.Send, *ssa.Panic:
-				return bval{} // not pure
+				return nil, nil, nil // not pure
 			case *ssa.Return:
-				if len(x.Results) != 1 {
-					return bval{}
-				}
-				return foldValue(x.Results[0], env, depth+1)
+				return x, env, took
 			case *ssa.If:
 				c := foldValue(x.Cond, env, depth+1)
 				if !c.known || !c.isB {
-					return bval{}
+					return nil, nil, nil
 				}
 				from = blk
 				if c.b {
@@ -187,10 +207,10 @@ func foldFuncEnv(fn *ssa.Function, args []bval, captured benv, depth int) bval {
 			}
 		}
 		if len(blk.Instrs) == 0 {
-			return bval{}
+			return nil, nil, nil
 		}
 	}
-	return bval{}
+	return nil, nil, nil
 }
 
 // loopByteOutcome explores the loop body for one byte value: does some path continue the loop, does some path leave
